@@ -33,7 +33,7 @@ ASSUMPTIONS = [
 S0 = world.tosec("2020-01-01T00:00:00")
 DS = [0.0, 1e-4, 1e-2, 1.0, 100.0]
 DTS = [1, 60, 600, 3600]
-DXS = [(1.0, 1.0), (100.0, 100.0), (800.0, 500.0), (20000.0, 20000.0), (400.0, "cellwise")]
+DXS = [(1.0, 1.0), (100.0, 100.0), (800.0, 500.0), (20000.0, 20000.0), (400.0, "cellwise"), (100, "int")]  # "int": the grid reports its spacing as integers
 
 _mods = {}
 
@@ -71,6 +71,9 @@ def run_one(D, Dz, dt, dxy, nsteps, npart, adv, inactive=False, wadv=0.0, big=Fa
 
     dx, dy = DXS[dxy]
     cellwise = dy == "cellwise"
+    intmetric = dy == "int"
+    if intmetric:
+        dy = dx
     if cellwise:
         dy = dx
         if not adv or nsteps > 8:
@@ -78,7 +81,7 @@ def run_one(D, Dz, dt, dxy, nsteps, npart, adv, inactive=False, wadv=0.0, big=Fa
     mods = {}
     mods["time"] = TimeKeeper(start=world.iso(S0), stop=world.iso(S0 + 1000 * dt), dt=dt)
     mods["state"] = st = State()
-    mods["grid"] = g = plugin("agrid").Grid(modules=mods, imax=40, jmax=30, dx=dx, dy=dy, h=5000.0, metric="cellwise" if cellwise else "uniform")
+    mods["grid"] = g = plugin("agrid").Grid(modules=mods, imax=40, jmax=30, dx=dx, dy=dy, h=5000.0, metric="cellwise" if cellwise else "uniform-int" if intmetric else "uniform")
     # cell-wise metric: a steady current carries the particles into cells with another spacing (0.45 cells of the base spacing per step)
     ua, va = (0.45 * dx / dt, 0.3 * dx / dt) if cellwise else (0.0, 0.0)
     mods["forcing"] = fo = plugin("aforce").Forcing(mods, field="const" if cellwise else "still", params=dict(a=ua, b=va, L=1.0), w=wadv, record=False)
@@ -169,10 +172,17 @@ def run_roms(case):
 
     jj, ii = np.meshgrid(np.arange(9), np.arange(11), indexing="ij")
     dxs = 400.0 * (1.0 + 0.25 * (jj % 3) + 0.0 * ii)
-    w = world.World(imax=11, jmax=9, N=2, h=200.0, dx=dxs)
+    dys = 300.0 * (1.0 + 0.5 * (ii % 2) + 0.0 * jj)  # pm != pn: the spacing along Y is another one
+    w = world.World(imax=11, jmax=9, N=2, h=200.0, dx=dxs, dy=dys)
     d = util.scratch("c11")
-    f = w.write_file(d / "g.nc", [dict(t=S0, **w.zeros())])
     D, dt, sg = case["D"], case["dt"], case["subgrid"]
+    # another grid under the same path first (a driver that regenerates its grid file for each experiment): nothing of it may be remembered
+    w0 = world.World(imax=11, jmax=9, N=2, h=90.0, dx=100.0)
+    try:
+        Grid(w0.write_file(d / "g.nc", [dict(t=S0, **w0.zeros())]), subgrid=sg)
+    except BaseException:
+        pass
+    f = w.write_file(d / "g.nc", [dict(t=S0, **w.zeros())])
     lim = sg or [1, 10, 1, 8]
     mods = {}
     mods["time"] = TimeKeeper(start=world.iso(S0), stop=world.iso(S0 + 100 * dt), dt=dt)
@@ -202,7 +212,7 @@ def run_roms(case):
         pool = np.concatenate(rng.log[c0:]) if rng.log[c0:] else np.array([])
         for name, disp, pos in (("x", st.X - xb, xb), ("y", st.Y - yb, yb)):
             for i in range(n):
-                m = dxs[int(round(yb[i])), int(round(xb[i]))]
+                m = (dxs if name == "x" else dys)[int(round(yb[i])), int(round(xb[i]))]
                 exp = sig * pool / m
                 j = int(np.argmin(np.abs(disp[i] - exp))) if len(pool) else 0
                 if not len(pool) or abs(disp[i] - exp[j]) > 1e-9 * abs(exp[j]) + 16 * np.finfo(float).eps * abs(pos[i]):
